@@ -48,35 +48,36 @@ DefConst == [char |-> "A", int8 |-> "1", uint8 |-> "1", int16 |-> "1", uint16 |-
              int64 |-> "1", uint64 |-> "1", float |-> "1.5", double |-> "1.5"]
 
 PresSeq == <<"required", "optional", "constant">>
-LitSeq  == <<"none", "sbe", "rep", "lz", "special">>
+LitSeq  == <<"none", "sbe", "rep", "lz", "special", "wide">>
 PosSeq  == <<"public", "inline", "ref", "field", "tfield">>
 
 \* which combinations are legal SBE
 LegalLit(prim, c) ==
-  /\ c.lit = "lz" => (prim \in IntPrims \/ (prim = "char" /\ c.pres # "constant"))
+  /\ c.lit = "lz" => (prim \in IntPrims \/ prim \in FloatPrims \/ (prim = "char" /\ c.pres # "constant"))
   /\ c.lit = "special" => prim \in FloatPrims
+  /\ c.lit = "wide" => prim \in FloatPrims       \* integer-looking lexemes beyond the exactly representable range
   /\ c.pos = "field" => /\ c.lit = "none"                                  \* a <field> has no min/max/null
                         /\ c.pres = "constant" => prim \notin FloatPrims   \* constant field needs an enum valueRef
   /\ (prim = "char" /\ c.pres = "constant") => c.lit \in {"none", "sbe"}  \* char constants are characters
 
-Combos == [k \in 1 .. 75 |-> [pres |-> PresSeq[((k - 1) \div 25) + 1],
-                               lit  |-> LitSeq[(((k - 1) \div 5) % 5) + 1],
+Combos == [k \in 1 .. 90 |-> [pres |-> PresSeq[((k - 1) \div 30) + 1],
+                               lit  |-> LitSeq[(((k - 1) \div 5) % 6) + 1],
                                pos  |-> PosSeq[((k - 1) % 5) + 1]]]
 
 MinOf(prim, c) == IF c.pres = "constant" THEN ""
                   ELSE CASE c.lit = "none" -> "" [] c.lit = "sbe" -> SbeMin[prim] [] c.lit = "rep" -> RepMin[prim]
-                         [] c.lit = "lz" -> "007" [] OTHER -> "-INF"
+                         [] c.lit = "lz" -> "007" [] c.lit = "wide" -> "-9007199254740993" [] OTHER -> "-INF"
 MaxOf(prim, c) == IF c.pres = "constant" THEN ""
                   ELSE CASE c.lit = "none" -> "" [] c.lit = "sbe" -> SbeMax[prim] [] c.lit = "rep" -> RepMax[prim]
-                         [] c.lit = "lz" -> "08" [] OTHER -> "INF"
+                         [] c.lit = "lz" -> "08" [] c.lit = "wide" -> "18446744073709551615" [] OTHER -> "INF"
 NullOf(prim, c) == IF c.pres # "optional" THEN ""
                    ELSE CASE c.lit = "none" -> "" [] c.lit = "sbe" -> SbeNull[prim] [] c.lit = "rep" -> SbeNull[prim]
-                          [] c.lit = "lz" -> "09" [] OTHER -> "NaN"
+                          [] c.lit = "lz" -> "09" [] c.lit = "wide" -> "16777217" [] OTHER -> "NaN"
 ConstOf(prim, c) == IF c.pres # "constant" THEN ""
                     ELSE CASE c.lit = "none" -> DefConst[prim]
                            [] c.lit = "sbe" -> (IF prim = "char" THEN "z" ELSE SbeMax[prim])
                            [] c.lit = "rep" -> RepMin[prim]
-                           [] c.lit = "lz" -> "08" [] OTHER -> "-INF"
+                           [] c.lit = "lz" -> "08" [] c.lit = "wide" -> "123456789" [] OTHER -> "-INF"
 
 Lbl(c) == c.pres \o "_" \o c.lit \o "_" \o c.pos
 WithVals(e, prim, c) == [e EXCEPT !.min = MinOf(prim, c), !.max = MaxOf(prim, c), !.null = NullOf(prim, c),
